@@ -28,7 +28,7 @@ Grid(sh) == Idx(sh)
 AggStimuli ==
   UNION {UNION {{St("aggregate", [subs |-> ss, vals |-> vs, shape |-> shn[1], red |-> red]) :
                    vs \in {[k \in 1..shn[2] |-> k], [k \in 1..shn[2] |-> IF k % 2 = 1 THEN k ELSE 0 - (k - 1)],
-                           [k \in 1..shn[2] |-> (k % 3) - 1]},
+                           [k \in 1..shn[2] |-> (k % 3) - 1], [k \in 1..shn[2] |-> 1]},
                    red \in {"sum", "max", "min", "count2"}} :
                 ss \in SeqsLen(Grid(shn[1]), shn[2])} :
          shn \in {<<<<2, 2>>, 1>>, <<<<2, 2>>, 2>>, <<<<2, 2>>, 3>>, <<<<2, 2>>, 4>>, <<<<2, 1, 2>>, 2>>, <<<<2, 1, 2>>, 3>>}}
